@@ -5,12 +5,15 @@
 package main
 
 import (
+	"encoding/json"
+	"errors"
 	"fmt"
 	"os"
 	"regexp"
 	"runtime/debug"
 	"strconv"
 	"strings"
+	"time"
 
 	"github.com/anz-bank/sysl/pkg/cmdutils"
 	"github.com/anz-bank/sysl/pkg/sequencediagram"
@@ -189,9 +192,63 @@ type realOut struct {
 	panicked bool
 	panicMsg string
 	runaway  bool
+	crashed  bool   // the worker process died or did not answer: unbounded recursion
+	crashMsg string
+}
+
+// the real generator runs in a worker subprocess (the harness binary itself): a generator that no longer stops at
+// calls in progress overflows the stack or eats the memory, which cannot be recovered from in-process
+type workReq struct {
+	Case  *caseT `json:"case"`
+	Limit int    `json:"limit"`
+}
+type workRep struct {
+	Text     string `json:"text"`
+	Err      string `json:"err"`
+	HasErr   bool   `json:"has_err"`
+	Panicked bool   `json:"panicked"`
+	PanicMsg string `json:"panic_msg"`
+	Runaway  bool   `json:"runaway"`
+}
+
+var worker *common.Worker
+
+func serveOne(line []byte) interface{} {
+	var q workReq
+	if err := json.Unmarshal(line, &q); err != nil || q.Case == nil {
+		return workRep{Panicked: true, PanicMsg: "bad request"}
+	}
+	r := runRealHere(q.Case, q.Limit)
+	rep := workRep{Text: r.text, Panicked: r.panicked, PanicMsg: r.panicMsg, Runaway: r.runaway}
+	if r.err != nil {
+		rep.HasErr, rep.Err = true, r.err.Error()
+	}
+	return rep
 }
 
 func runReal(tc *caseT, limit int) (r realOut) {
+	var rep workRep
+	died, timedOut, stderr := worker.Call(workReq{tc, limit}, &rep, 20*time.Second)
+	switch {
+	case timedOut:
+		return realOut{crashed: true, crashMsg: "no answer within 20 s"}
+	case died:
+		msg := "the process died"
+		if strings.Contains(stderr, "stack overflow") || strings.Contains(stderr, "stack exceeds") {
+			msg = "stack overflow"
+		} else if i := strings.Index(stderr, "\n"); i > 0 {
+			msg += ": " + stderr[:i]
+		}
+		return realOut{crashed: true, crashMsg: msg}
+	}
+	r = realOut{text: rep.Text, panicked: rep.Panicked, panicMsg: rep.PanicMsg, runaway: rep.Runaway}
+	if rep.HasErr {
+		r.err = errors.New(rep.Err)
+	}
+	return r
+}
+
+func runRealHere(tc *caseT, limit int) (r realOut) {
 	m := buildModule(tc)
 	var eps []string
 	for _, s := range tc.Starts {
@@ -392,6 +449,10 @@ func callsOf(ss []stmt, out *[][2]int) {
 
 type danglingErr struct{}
 
+// refVisits counts the endpoint visits of the last reference walk (drawn or not): the real generator labels at most
+// one call per visit, which bounds the watchdog
+var refVisits int
+
 // refWalk: the specification of the call arrows: depth-first over call statements in source order; an endpoint in
 // progress or cut by a blackbox is shown but not expanded. cut = effective blackbox keys. limit bounds the result.
 func refWalk(tc *caseT, cut map[string]bool, inprog map[string]bool, from, a, e int, out *[]arrowT, limit int) {
@@ -400,6 +461,7 @@ func refWalk(tc *caseT, cut map[string]bool, inprog map[string]bool, from, a, e 
 	}
 	ap := &tc.Apps[a]
 	ep := &ap.Eps[e]
+	refVisits++
 	human, cron := hasPat(ap, "human"), hasPat(ap, "cron")
 	if !((human && from < 0) || cron) && !ep.Hidden {
 		*out = append(*out, arrowT{from, a, e})
@@ -423,6 +485,7 @@ func refWalk(tc *caseT, cut map[string]bool, inprog map[string]bool, from, a, e 
 // refDiagram: per start entry the expected arrows; ok=false when the run must end in an error (missing start or
 // dangling target); big=true when the walk exceeds limit arrows
 func refDiagram(tc *caseT, limit int) (arrows []arrowT, wantErr bool, big bool) {
+	refVisits = 0
 	defer func() {
 		if x := recover(); x != nil {
 			switch x.(type) {
@@ -469,14 +532,20 @@ var agentG = map[string]string{"actor": "Actor", "boundary": "Boundary", "contro
 
 // judge runs the real generator on tc, judges every clause of the property on the text and renders the observation
 func judge(c *common.Ctx, tc *caseT) judged {
-	want, wantErr, big := refDiagram(tc, 20000)
+	want, wantErr, big := refDiagram(tc, 5000)
 	if big {
 		return judged{outcome: "big"}
 	}
-	r := runReal(tc, 100000)
+	// the real generator labels one call per visited call statement: more than the reference walk visits (plus slack)
+	// means it expands what is already in progress; stopping there keeps the recursion shallow enough for the stack
+	limit := refVisits + 64
+	r := runReal(tc, limit)
 	switch {
+	case r.crashed:
+		c.Fail("nontermination", fmt.Sprintf("generation does not terminate (%s) for a module whose reference walk visits %d endpoints", r.crashMsg, refVisits), tc)
+		return judged{obs: "ObsPanic", outcome: "panic"}
 	case r.runaway:
-		c.Fail("nontermination", fmt.Sprintf("more than 100000 calls drawn for a module whose reference walk has %d", len(want)), tc)
+		c.Fail("nontermination", fmt.Sprintf("more than %d calls visited for a module whose reference walk visits %d endpoints (%d arrows): generation does not stop at calls in progress", limit, refVisits, len(want)), tc)
 		return judged{obs: "ObsPanic", outcome: "panic"}
 	case r.panicked:
 		k := "panic:other"
@@ -916,9 +985,15 @@ func sizeOf(ss []stmt) (n, depth int) {
 }
 
 func main() {
-	debug.SetMaxStack(256 << 20)
+	if common.IsWorker() {
+		debug.SetMaxStack(64 << 20)
+		common.ServeWorker(serveOne)
+		return
+	}
 	c := common.Setup("C13")
 	defer c.Finish()
+	worker = common.NewWorker()
+	defer worker.Close()
 	classifyPayloads()
 	c.Res.Rule = "each case = (module of 1-6 apps x 1-3 endpoints whose statements are calls / actions / returns with 10 payload spellings / opt-loop-group blocks / alternatives nested up to 3 deep, patterns human-cron-ui-db-..., hidden endpoints; start entries; blackboxes; group-by option); mostly-valid stream + hostile stream (dangling call targets, missing starts, no starts) + the shapes `callee called twice`, `alt with calls ending its choices as last statement`, `return inside a nested block`; thorough adds every module over 3 endpoints x <=2 statements; distinct = distinct abstract case; non-trivial = the diagram has at least 3 call arrows, or the run ends in an error"
 	if c.Replay != "" {
@@ -928,7 +1003,7 @@ func main() {
 			os.Exit(3)
 		}
 		j := judge(c, &tc)
-		r := runReal(&tc, 100000)
+		r := runReal(&tc, refVisits+64)
 		c.Count("replay", true)
 		fmt.Printf("replay: outcome=%s failures=%d\n%s\n", j.outcome, len(c.Res.Failures), r.text)
 		for _, f := range c.Res.Failures {
@@ -989,7 +1064,7 @@ Definition BB a e c l := {| bb_key := (a,e); bb_cut := c; bb_clen := l |}.`
 	}
 	n := 1400
 	if c.Thorough() {
-		n = 30000
+		n = 12000
 	}
 	if c.Search {
 		n *= 4
@@ -1026,6 +1101,7 @@ Definition BB a e c l := {| bb_key := (a,e); bb_cut := c; bb_clen := l |}.`
 		c.Res.Extra["exhaustive_small_scope_modules"] = k
 	}
 	cs.Close()
+	c.Res.Extra["worker_restarts"] = worker.Restarts
 }
 
 func corpus() []*caseT {
